@@ -1,6 +1,9 @@
 import Abyss.Props.C03
 import Abyss.Props.C02
 import Abyss.Props.C03Snapshot
+import Abyss.Props.C03Db
+#print axioms Abyss.Buf.C03_db_level
+#print axioms Abyss.Buf.C03_db_memory
 #print axioms Abyss.C03_snapshot_opens
 #print axioms Abyss.Buf.C03_crash_image
 #print axioms Abyss.Buf.C03_durable
